@@ -102,7 +102,8 @@ def workload(ctx, pid, mode, only=None):
         if not ctx.mine(i):
             continue
         ctx.count('real_contract_calls')
-        out = L.run_real_contract(c['code'], ep, path, tx, arg, storage, env, mode)
+        out = L.run_real_contract(c['code'], ep, path, tx, arg, storage, env, mode, deep=(mode == 'types'))
+        ctx.count('real_contract_objects_walked_for_self_consistency', getattr(out, 'walks', 0) or 0)
         case = {'label': 'real-contract', 'contract': c['name'], 'entrypoint': ep, 'argument': arg, 'storage': storage, 'env': K.env_to_json(env)}
         ctx.case(K.code_key([c['name'], ep, arg, storage], env), nontrivial=bool(out.mon and len(out.mon.events) >= 12))
         ctx.count('real_contract_' + str(out.kind))
@@ -125,7 +126,7 @@ def workload(ctx, pid, mode, only=None):
             ctx.extra.setdefault('real_contract_longest_agreeing_trace', 0)
             ctx.extra['real_contract_longest_agreeing_trace'] = max(ctx.extra['real_contract_longest_agreeing_trace'], len(out.mon.events))
             continue
-        if mode == 'types' and getattr(out, 'div', {}).get('class') != 'type':
+        if mode == 'types' and getattr(out, 'div', {}).get('class') not in ('type', 'stack-depth') and 'deep-type' not in str(out.sig):
             ctx.count('diverged_for_non_type_reasons_not_judged_here')
             continue
         if only and not str(out.sig).startswith(only):
@@ -140,7 +141,7 @@ def replay(ctx, pid, case, mode, only=None):
         return ctx.inconc('contract %s is not in the tree' % case['contract'])
     eps = C.entrypoints(c['parameter'])
     path, tx = eps[case['entrypoint']]
-    out = L.run_real_contract(c['code'], case['entrypoint'], path, tx, case['argument'], case['storage'], K.env_from_json(case.get('env')), mode)
+    out = L.run_real_contract(c['code'], case['entrypoint'], path, tx, case['argument'], case['storage'], K.env_from_json(case.get('env')), mode, deep=(mode == 'types'))
     ctx.count('real_contract_' + str(out.kind))
     if out.kind == 'violation' and (not only or str(out.sig).startswith(only)):
         ctx.violation('%s|%s' % (pid, out.sig), str(out.detail), case)
